@@ -128,6 +128,33 @@ def check_split(case):
             s2 = gen.pybind_sections(got)
             if s2['DEF'].strip() != 'void %s(py::module_ &m_)' % stems[gi]:
                 add('C16|pybind-submodule|initialiser-definition', 'defines %r' % s2['DEF'].strip())
+        # ---- one wrapper object used for the parts first and the main file afterwards (and the other way round):
+        #      every file must be what the fresh wrappers above produced
+        if len(groups) > 1:
+            for order in ('parts-then-main', 'main-then-parts-then-main'):
+                w3 = PybindWrapper(module_name='mod', top_module_namespaces=[''], ignore_classes=[''], module_template=gen.PY_TEMPLATE)
+                cwd = os.path.join(wd, 'cwd-' + order)
+                os.makedirs(cwd)
+                old = os.getcwd()
+                os.chdir(cwd)
+                try:
+                    if order != 'parts-then-main':
+                        w3.wrap(paths, os.path.join(cwd, 'mod.cpp'))
+                    for gi in range(1, len(groups)):
+                        w3.wrap_submodule(paths[gi])
+                    w3.wrap(paths, os.path.join(cwd, 'mod.cpp'))
+                except Exception as e:
+                    add('C16|pybind-one-wrapper|%s|raises' % order, 'one wrapper object used for parts and main file raised %s: %s' % (type(e).__name__, str(e)[:200]))
+                    continue
+                finally:
+                    os.chdir(old)
+                if open(os.path.join(cwd, 'mod.cpp')).read() != main:
+                    add('C16|pybind-one-wrapper|%s|main-file-differs' % order,
+                        'the main file written by a wrapper object that wrapped the additional files before differs from the one of a fresh wrapper')
+                for gi in range(1, len(groups)):
+                    f = os.path.join(cwd, stems[gi] + '.cpp')
+                    if os.path.exists(f) and open(f).read() != gen.pybind(texts[gi], module_name=stems[gi], submodules=None):
+                        add('C16|pybind-one-wrapper|%s|part-differs' % order, 'the file of an additional source written by a reused wrapper object differs from a fresh wrapper\'s')
         # ---- MATLAB: list of files == one file with the declarations in sequence
         try:
             tree_multi = gen.matlab(None, files=texts)
